@@ -2,9 +2,9 @@ package main
 
 import (
 	"archive/zip"
-	"io"
 	"bytes"
 	"fmt"
+	"io"
 	"regexp"
 	"sort"
 	"strconv"
